@@ -14,7 +14,7 @@ def _single_atom(t):
     if not t.d.is_const() or len(t.n.t) != 1:
         return None
     (mono, c), = t.n.t.items()
-    if len(mono) == 1 and mono[0][1] == 1:
+    if len(mono) == 1 and mono[0][1] == 1 and abs(c / t.d.const_value()) == 1 and mono[0][0] != 'pi':
         return mono[0][0], (c / t.d.const_value() > 0)
     return None
 
@@ -77,3 +77,79 @@ def positive_atoms(sx: SX, cls: str):
             out.add(p)
             out |= pf.get(p, set())
     return out
+
+
+def ctor_field_defs(sx: SX, cls: str):
+    """{field atom -> defining Rat in terms of other field atoms} for private fields whose stored
+    value is a function of constructor parameters (e.g. HelicalGear's transverse pressure angle),
+    taken from the completing constructor paths (all paths storing the field must agree) and valid
+    only for fields with no writer outside __init__."""
+    import ast
+    m, outs = ctor_paths(sx, cls)
+    done = [o for o in outs if o.kind in ('fall', 'return')]
+    ctx = sx.ctx
+    # writers outside __init__ anywhere in the class hierarchy
+    written_elsewhere = set()
+    for c in sx.model.mro(cls):
+        ci = sx.model.classes.get(c)
+        if not ci:
+            continue
+        for mem in ci.all_members():
+            if mem.name == '__init__':
+                continue
+            for n in ast.walk(mem.node):
+                if isinstance(n, ast.Attribute) and isinstance(n.ctx, ast.Store) and isinstance(n.value, ast.Name) \
+                        and n.value.id == 'self' and n.attr.startswith('__') and not n.attr.endswith('__'):
+                    written_elsewhere.add(sx.model.mangle(c, n.attr))
+    param_to_field = {}
+    finals = []
+    pnames = {a.arg for a in m.node.args.args}
+    for o in done:
+        final = {}
+        for e in o.state.effects:
+            if e[0] == 'store' and e[1] == 'self':
+                final[e[2]] = e[3]
+        finals.append(final)
+        for f, v in final.items():
+            t = getattr(v, 'term', None)
+            if t is not None:
+                sa = _single_atom(t)
+                if sa and sa[1] and sa[0] in pnames:
+                    param_to_field.setdefault(sa[0], f'self.{f}')
+    mapping = {}
+    from .algebra import Rat
+    for p, f in param_to_field.items():
+        mapping[p] = Rat.atom(f)
+        mapping[f'F[{p}]'] = None
+    defs = {}
+    conflict = set()
+    for final in finals:
+        for f, v in final.items():
+            t = getattr(v, 'term', None)
+            if t is None or f in written_elsewhere:
+                continue
+            sa = _single_atom(t)
+            if sa and sa[1] and sa[0] in pnames:
+                continue            # plain parameter copy
+            atoms = set()
+            todo = list(t.atoms())
+            while todo:
+                a = todo.pop()
+                if a in atoms:
+                    continue
+                atoms.add(a)
+                if a in ctx.defs:
+                    for x in ctx.defs[a][1]:
+                        todo.extend(x.atoms())
+            sub = {}
+            for a in atoms:
+                if a in param_to_field:
+                    sub[a] = Rat.atom(param_to_field[a])
+            t2 = ctx.subst(t, sub) if sub else t
+            name = f'self.{f}'
+            if name in defs and not ctx.eq(defs[name], t2):
+                conflict.add(name)
+            defs[name] = t2
+    for c in conflict:
+        defs.pop(c, None)
+    return defs
